@@ -89,13 +89,30 @@ fn gen_history(seed: u64) -> History {
     let mut ops = vec![];
     let mut next_id = 1u32;
     let mut fake_port = 60000u16;
-    let mut pending_rebind: Option<Op> = None;
+    // scripted follow-ups (re-bind after close, listener close + re-bind
+    // while a connect is half open)
+    let mut forced: std::collections::VecDeque<Op> = Default::default();
+    // a half-open connect not yet resolved: (client label, listener label)
+    let mut half: Option<(u32, u32)> = None;
     while (ops.len() as u64) < n {
-        if let Some(op) = pending_rebind.take() {
-            if let Op::Bind { id, host, proto, addr, port } = &op {
-                if m.bind_expect(*host, *proto, *addr, *port) == BindExpect::Ok {
-                    m.socks.insert(*id, MSock { host: *host, proto: *proto, addr: *addr, port: *port, role: if *proto == Proto::Udp { Role::Udp { peer: None } } else { Role::Listener } });
+        if let Some(op) = forced.pop_front() {
+            match &op {
+                Op::Bind { id, host, proto, addr, port } => {
+                    if m.bind_expect(*host, *proto, *addr, *port) == BindExpect::Ok {
+                        m.socks.insert(*id, MSock { host: *host, proto: *proto, addr: *addr, port: *port, role: if *proto == Proto::Udp { Role::Udp { peer: None } } else { Role::Listener } });
+                    }
                 }
+                Op::Close { sock, .. } => {
+                    m.socks.remove(sock);
+                    if let Some((c, l)) = half {
+                        if l == *sock {
+                            m.socks.remove(&c);
+                            m.socks.remove(&(c + 100_000));
+                            half = None;
+                        }
+                    }
+                }
+                _ => {}
             }
             ops.push(op);
             continue;
@@ -145,27 +162,67 @@ fn gen_history(seed: u64) -> History {
                 ops.push(Op::UdpConnect { sock, to });
             }
             55..=74 => {
-                let ls: Vec<MSock> = m.socks.values().filter(|s| s.role == Role::Listener && s.port < 60000).cloned().collect();
-                let to = if !ls.is_empty() && rng.chance(0.75) {
-                    let t = rng.pick(&ls).clone();
+                half = None;
+                let half_open = rng.chance(0.4);
+                let ls: Vec<(u32, MSock)> = m
+                    .socks
+                    .iter()
+                    .filter(|(_, s)| s.role == Role::Listener && s.port < 60000 && (!half_open || s.host != host))
+                    .map(|(l, s)| (*l, s.clone()))
+                    .collect();
+                let to = if !ls.is_empty() && rng.chance(if half_open { 0.9 } else { 0.75 }) {
+                    // half-open connects prefer wildcard listeners: their
+                    // children are bound to a concrete address
+                    let wild: Vec<&(u32, MSock)> = ls.iter().filter(|(_, s)| s.addr.is_unspecified()).collect();
+                    let t = if half_open && !wild.is_empty() && rng.chance(0.7) { (*rng.pick(&wild)).1.clone() } else { rng.pick(&ls).1.clone() };
                     SocketAddr::new(reach_addr(&mut rng, &m, &t, host), t.port)
                 } else {
                     SocketAddr::new(pick_addr(&mut rng, &hosts, host, false), *rng.pick(&PORTS))
                 };
                 let id = next_id;
                 next_id += 1;
+                let mut reached: Option<u32> = None;
                 if let Some(d) = m.dst_host(host, to.ip()) {
                     if m.select(d, Proto::Tcp, to.ip(), to.port()).is_some() && (to.ip().is_loopback() || hosts[host].iter().any(|a| a.is_ipv4() == to.is_ipv4())) {
+                        reached = m.select(d, Proto::Tcp, to.ip(), to.port());
                         fake_port += 1;
                         let la = if to.ip().is_loopback() { to.ip() } else { *hosts[host].iter().find(|a| a.is_ipv4() == to.is_ipv4()).unwrap() };
                         m.socks.insert(id, MSock { host, proto: Proto::Tcp, addr: la, port: fake_port, role: Role::Stream { peer: to, mate: id + 100_000 } });
                         m.socks.insert(id + 100_000, MSock { host: d, proto: Proto::Tcp, addr: to.ip(), port: to.port(), role: Role::Stream { peer: SocketAddr::new(la, fake_port), mate: id } });
                     }
                 }
-                ops.push(Op::TcpConnect { id, host, to });
+                if half_open {
+                    ops.push(Op::HalfOpen { id, host, to });
+                    if let Some(l) = reached {
+                        if m.dst_host(host, to.ip()) != Some(host) {
+                            half = Some((id, l));
+                            // often: close the listener mid-handshake, then
+                            // bind its port again (same address, the concrete
+                            // destination, or the wildcard)
+                            if rng.chance(0.65) {
+                                let ls = m.socks[&l].clone();
+                                forced.push_back(Op::Close { sock: l, server_first: false });
+                                if rng.chance(0.8) {
+                                    let any = if to.is_ipv4() { ip("0.0.0.0") } else { ip("::") };
+                                    let addr = *rng.pick(&[ls.addr, to.ip(), any]);
+                                    let nid = next_id;
+                                    next_id += 1;
+                                    forced.push_back(Op::Bind { id: nid, host: ls.host, proto: Proto::Tcp, addr, port: ls.port });
+                                }
+                            }
+                        }
+                    }
+                } else {
+                    ops.push(Op::TcpConnect { id, host, to });
+                }
             }
             _ => {
-                let live: Vec<(u32, MSock)> = m.socks.iter().map(|(l, s)| (*l, s.clone())).collect();
+                let live: Vec<(u32, MSock)> = m
+                    .socks
+                    .iter()
+                    .filter(|(l, _)| half.map(|(c, _)| **l != c && **l != c + 100_000).unwrap_or(true))
+                    .map(|(l, s)| (*l, s.clone()))
+                    .collect();
                 if live.is_empty() {
                     continue;
                 }
@@ -173,12 +230,20 @@ fn gen_history(seed: u64) -> History {
                 m.socks.remove(&sock);
                 if let Role::Stream { mate, .. } = s.role {
                     m.socks.remove(&mate);
+                    half = None;
+                }
+                if let Some((c, l)) = half {
+                    if l == sock {
+                        m.socks.remove(&c);
+                        m.socks.remove(&(c + 100_000));
+                        half = None;
+                    }
                 }
                 ops.push(Op::Close { sock, server_first: rng.coin() });
                 if !matches!(s.role, Role::Stream { .. }) && s.port < 60000 && rng.coin() {
                     let id = next_id;
                     next_id += 1;
-                    pending_rebind = Some(Op::Bind { id, host: s.host, proto: s.proto, addr: s.addr, port: s.port });
+                    forced.push_back(Op::Bind { id, host: s.host, proto: s.proto, addr: s.addr, port: s.port });
                 }
             }
         }
@@ -223,6 +288,50 @@ fn directed() -> Vec<History> {
                 b(5, 0, Proto::Tcp, "0.0.0.0", 0),
                 Op::TcpConnect { id: 6, host: 1, to: sa("10.0.0.2:49153") },
                 Op::TcpConnect { id: 7, host: 0, to: sa("10.0.0.2:49153") },
+            ],
+        },
+        // a listener closed while a connect to it is half open: the child
+        // goes with it, the port is free again at once (wildcard and concrete
+        // re-bind), the connect is refused; a specific-address listener alike
+        History {
+            hosts: h2.clone(),
+            ops: vec![
+                b(1, 0, Proto::Tcp, "0.0.0.0", 5000),
+                Op::HalfOpen { id: 2, host: 1, to: sa("10.0.0.1:5000") },
+                Op::Close { sock: 1, server_first: false },
+                b(3, 0, Proto::Tcp, "0.0.0.0", 5000),
+                Op::HalfOpen { id: 4, host: 1, to: sa("10.0.0.2:5000") },
+                Op::Close { sock: 3, server_first: false },
+                b(5, 0, Proto::Tcp, "10.0.0.2", 5000),
+                Op::HalfOpen { id: 6, host: 1, to: sa("10.0.0.2:5000") },
+                Op::Close { sock: 5, server_first: false },
+                b(7, 0, Proto::Tcp, "10.0.0.2", 5000),
+                b(8, 0, Proto::Tcp, "::", 5001),
+                Op::HalfOpen { id: 9, host: 1, to: sa("[fd00::0:1]:5001") },
+                Op::Close { sock: 8, server_first: false },
+                b(10, 0, Proto::Tcp, "fd00::0:1", 5001),
+                Op::HalfOpen { id: 11, host: 1, to: sa("[fd00::0:1]:5001") },
+                Op::TcpConnect { id: 12, host: 1, to: sa("10.0.0.2:5000") },
+            ],
+        },
+        // known finding: closing a wildcard listener also resets the
+        // half-open children of the other family's listener on that port
+        History {
+            hosts: h2.clone(),
+            ops: vec![
+                b(1, 0, Proto::Tcp, "::", 5000),
+                b(2, 0, Proto::Tcp, "0.0.0.0", 5000),
+                Op::HalfOpen { id: 3, host: 1, to: sa("[fd00::0:1]:5000") },
+                Op::Close { sock: 2, server_first: false },
+            ],
+        },
+        History {
+            hosts: h2.clone(),
+            ops: vec![
+                b(1, 0, Proto::Tcp, "0.0.0.0", 5000),
+                b(2, 0, Proto::Tcp, "::", 5000),
+                Op::HalfOpen { id: 3, host: 1, to: sa("10.0.0.1:5000") },
+                Op::Close { sock: 2, server_first: false },
             ],
         },
         // connected UDP peer filter; established connection vs listener
@@ -307,7 +416,8 @@ fn to_out(h: &History, o: Out, space: &str, minimise_it: bool) -> ScenarioOut {
         let min = if minimise_it { minimise(h, &c.class) } else { h.clone() };
         let fin = run_history(&min);
         let detail = fin.complaint.map(|x| x.detail).unwrap_or(c.detail);
-        let sig = format!("C17|{}|{}", c.class, min.canon());
+        // diagnosis complaints are identified by the diagnosis alone
+        let sig = if c.class.starts_with("diag:") { format!("C17|{}", c.class) } else { format!("C17|{}|{}", c.class, min.canon()) };
         out.violate(&c.class, sig, format!("{}: {} [history {}]", c.class, detail, min.canon()), min.to_json());
     }
     out
@@ -340,6 +450,11 @@ pub fn run(ctx: &Ctx) -> ! {
             "tcp_probe_ConnectionRefused",
             "tcp_probe_TimedOut",
             "established_exchanges",
+            "half_open_connects",
+            "half_open_resolved_ok",
+            "half_open_resolved_ConnectionRefused",
+            "listener_closed_with_half_open_child",
+            "exhaustion_full_range_refusals",
             "exhaustion_runs",
             "exhaustion_free_one_checks",
             "exhaustion_connect_checks",
